@@ -727,4 +727,37 @@ theorem extend_view_refines : Statement_extend_view_refines := by
 /-- on `[10, 11, 12]` (cells 100 → 1000 → 1001): a view on the second cell reads `[11, 12]` -/
 example : iter (run 100 exEmpty [.extend [10, 11, 12]]).1.g 1000 = .ok [11, 12] := rfl
 
+/-! ### Round h (1): `LexOK` discharged for rdflib's real term syntax -/
+
+/-- `tbl` gives every member its rdflib term (IRI, blank node, plain / typed / language-tagged literal).
+    With the members' real `n3()` (`tokR`: `<…>`, `_:…`, `"…"` with `\\`, `\"`, `\r` escaped, `^^<…>`, `@…`), the
+    text of `c.n3()` is `n3Text tokR` of the members' terms, and the reader with the real term lexer `lexR`
+    recovers exactly those terms in order — for all members satisfying `WFR` (no `>` in an IRI, no blank in a
+    blank-node id or language tag, no line feed in a lexical form). -/
+def Statement_n3_real_terms : Prop :=
+  ∀ (tbl : Term → RTerm) (s : St) (h : Term) (xs : List Term), (∀ x ∈ xs, WFR (tbl x)) →
+    WF s h → asList s.g h = .ok xs →
+    n3 (fun k => tokR (tbl k)) s.g h = .ok (n3Text tokR (xs.map tbl)) ∧
+      readN3 lexR (n3Text tokR (xs.map tbl)) = some (xs.map tbl)
+
+theorem n3_real_terms : Statement_n3_real_terms := by
+  intro tbl s h xs hwf ⟨ps, inv⟩ ha
+  have hxs := asList_of_inv inv ha
+  subst hxs
+  refine ⟨?_, readN3_n3Text_on lexOK_real _ ?_⟩
+  · simp only [n3, inv.chain.iter, n3Text, List.map_map]
+    rfl
+  · intro t ht
+    obtain ⟨x, hx, rfl⟩ := List.mem_map.mp ht
+    exact hwf x hx
+
+/-- (2) `n3()` never nests: a member that is itself the head of a collection (a blank node `_:d`) is written by
+    its own label and the reader returns that head; with an IRI, an escaped plain literal `a"\`, a typed and a
+    language-tagged literal -/
+def exTerms : List RTerm :=
+  [.iri ['e'], .bnode ['d'], .lit ['a', '"', '\\'] none none, .lit ['0'] (some ['i']) none, .lit [] none (some ['e', 'n'])]
+
+example : String.ofList (n3Text tokR exTerms) = "( <e> _:d \"a\\\"\\\\\" \"0\"^^<i> \"\"@en )" := by decide
+example : readN3 lexR (n3Text tokR exTerms) = some exTerms := by decide
+
 end RV.C19
